@@ -153,6 +153,11 @@ def shapes():
     # short-circuit branch whose arm is a loop (seeded changes C01/C06: region predecessor of a unified tail)
     out.append(((1, 3), (2, 3), (2, 4), (4,), ()))
     out.append(((1,), (2, 6), (3, 6), (3, 5), (), (1, 4), (5,)))
+    # a loop with two exits that are both entered from outside the loop as well: the exit branch becomes a
+    # two-arc predecessor of a header unification after its targets were renamed (seeded change C01-r7:
+    # value-table entries paired with re-targeted arcs by name order instead of by position)
+    out.append(((5, 3), (2, 4), (3, 2), (), (1, 3), (1, 2)))
+    out.append(((1, 2), (3, 4), (5, 3), (6, 1), (2, 6), (5, 6), ()))
     # Bahmann fig. 3 / fig. 4 like
     out.append(((1,), (2, 3), (4,), (4,), (5, 1), ()))
     out.append(((1, 2), (3,), (4,), (4, 5), (3, 5), ()))
